@@ -52,6 +52,7 @@ type RealNode struct {
 	Panicked      string
 	MonViol       func(prop, sig, what string) // set by the scenario: report a monitor violation
 	reqCancelled  bool                        // the context of the last RequestNewBlockProposal was cancelled when it returned
+	AheadUntil    uint64                      // a node sync accepted by the main loop has cancelled every context below this height
 
 	// observations for monitors
 	Commits   []commitObs
@@ -513,6 +514,9 @@ func (n *RealNode) Update(b *FakeBlock, proof []byte) (string, string) {
 // CancelAhead: what the main loop does when it accepts a node sync for block h, before the worker
 // has taken the block from the channel: every context older than (h+1, 0) is cancelled.
 func (n *RealNode) CancelAhead(h uint64) (string, string) {
+	if h+1 > n.AheadUntil {
+		n.AheadUntil = h + 1
+	}
 	return n.run(func() {
 		n.St.Contexts.CancelOlderThan(state.NewHeightView(primitives.BlockHeight(h+1), 0))
 	})
